@@ -172,7 +172,7 @@ Print Assumptions C17_model_meets_oracle.
 Definition ex_meta := mk_meta "foo" "d" "1.0.0" "https://x" ["SIGNATURE_GENERATOR.RAW"] ["0.9"; "1.0"].
 Definition ex_in (name : string) (exit : N) (desc : option N) :=
   mk_pinput GetMetadata name (bin_name name) FExec exit 0 desc (Some 400%N) 200 (SGood ex_meta) 40
-            (EJson "ACCESS_DENIED" "no" (Some [("k", "v")])) 9400.
+            (EJson "ACCESS_DENIED" "no" (Some [("k", "v")])) 9400 false true false.
 
 Example C17_example_ok :
   wf_p (ex_in "foo" 0 None) = true /\ model_p (ex_in "foo" 0 None) = mk_pobs ROk true (Some "get-plugin-metadata").
